@@ -216,6 +216,8 @@ impl HealthChecker {
     /// Called on each event loop iteration. Initiates new health checks when intervals
     /// have elapsed, and progresses in-flight checks.
     pub fn poll(&mut self, backends: &Rc<RefCell<BackendMap>>, registry: &Registry) {
+        #[cfg(sozu_verif)]
+        backends.borrow().verif_publish();
         if self.in_flight.is_empty() && backends.borrow().health_check_configs.is_empty() {
             return;
         }
